@@ -17,6 +17,7 @@ type Scope struct {
 	resolveOld func(string) (Term, bool)
 	inOld      bool
 	entry      *Scope // scope of the loop-entry state (for entry(e))
+	prev       *Scope // scope of the state at the start of the iteration (for prev(e))
 }
 
 func (s *Scope) child() *Scope {
@@ -174,6 +175,11 @@ func (s *Scope) Eval(e Expr) Term {
 		n := *s
 		n.inOld = true
 		return (&n).Eval(e.X)
+	case EPrev:
+		if s.prev == nil {
+			unsupported("prev(...) outside a step clause")
+		}
+		return s.prev.Eval(e.X)
 	case EEntry:
 		if s.entry == nil {
 			unsupported("entry(...) outside a loop contract")
@@ -653,6 +659,16 @@ func (s *Scope) evalCall(e ECall) Term {
 				return r
 			}
 		}
+	}
+	if fpkg == "strings" && fname == "TrimSpace" {
+		// same term the library model of strings.TrimSpace produces (a window of the argument)
+		a := args()[0]
+		so := w.SeqSort(SInt)
+		w.DeclareFun("trimA", []Sort{so}, SInt)
+		w.DeclareFun("trimN", []Sort{so}, SInt)
+		r := w.MkSeq(so, w.SeqBase(a), Arith("+", w.SeqOff(a), T("(trimA "+a.S+")", SInt)), T("(trimN "+a.S+")", SInt))
+		r.GoT = types.Typ[types.String]
+		return r
 	}
 	if purePkgs[fpkg] {
 		// library function as the same uninterpreted function the code's calls use
